@@ -154,3 +154,263 @@ Theorem flow_text_stream :
 Proof. exact ParaGreedy.flow_text_stream. Qed.
 Print Assumptions flow_text_stream.
 
+
+(* DOM level (Proofs/DomInline.v): what each inline element becomes; an <a href> with any
+   non-empty processed child is a link node whatever its text says (also when the text is the
+   target); the links of the render tree are exactly the kept <a href> elements of the document
+   in document order, so the footnote list has one entry per such element (table-free) *)
+From H2T Require Import Base Tagged Wrap Sub Css Dom Render Api CssParse Proofs.CssTotal Proofs.WrapInv Proofs.RenderWidth Proofs.Conserve Proofs.Footnotes Proofs.AnnBalance Proofs.RenderConserve Proofs.OptionRel Proofs.Compose Proofs.RenderTotal Proofs.FragStream Proofs.SimRel Proofs.Prune Proofs.DomRel Proofs.DomInline.
+
+Theorem names_spec :
+  forall (l : list (list N)) (n : text), names l n = true <-> In (cps n) l.
+Proof. exact DomInline.names_spec. Qed.
+Print Assumptions names_spec.
+
+Theorem find_attr_spec :
+  forall (attrs : list (text * text)) (k : list N),
+       match find_attr attrs k with
+       | Some v =>
+           exists (l1 : list (text * text)) (kn : text) (l2 : list (text * text)),
+             attrs = l1 ++ (kn, v) :: l2 /\
+             cps kn = k /\ (forall kv : text * text, In kv l1 -> cps (fst kv) <> k)
+       | None => forall kv : text * text, In kv attrs -> cps (fst kv) <> k
+       end.
+Proof. exact DomInline.find_attr_spec. Qed.
+Print Assumptions find_attr_spec.
+
+Theorem shallow_empty_spec :
+  forall x : rnode,
+       is_shallow_empty x =
+       match rn_info x with
+       | IText t | IImg _ t => all_ws t
+       | IContainer [] | ILink _ [] | IEm [] | IStrong [] | IStrikeout [] | ICode [] | 
+         IBlock [] | IHeader _ [] | IDiv [] | IBlockQuote [] | IUl [] | IOl _ [] | 
+         IDl [] | IDt [] | IDd [] | IBreak | IFragStart _ | IListItem [] | ISup [] => true
+       | _ => false
+       end.
+Proof. exact DomInline.shallow_empty_spec. Qed.
+Print Assumptions shallow_empty_spec.
+
+Theorem process_html_element :
+  forall (sd : styledata) (udc : bool) (inl : list (text * text) -> res (list styledecl)) 
+         (name : text) (attrs : list (text * text)) (kids : list node) (p : list anc) 
+         (idx : Z) (computed : cstyle),
+       style_of sd udc inl name attrs p idx = Ok computed ->
+       shown computed = true ->
+       process sd udc inl (NElem true name attrs kids) p idx =
+       (do base <-
+        (if DomRel.kind_leaf (DomRel.kind_of name)
+         then DomRel.base_of (DomRel.kind_of name) attrs computed []
+         else
+          do cs <- kids_of sd udc inl ({| a_name := name; a_attrs := attrs; a_idx := idx |} :: p) kids;
+          DomRel.base_of (DomRel.kind_of name) attrs computed cs);
+        Ok (DomRel.post computed (fragment_of name (names [[97]] name) attrs) base)).
+Proof. exact DomInline.process_html_element. Qed.
+Print Assumptions process_html_element.
+
+Theorem process_hidden_element :
+  forall (sd : styledata) (udc : bool) (inl : list (text * text) -> res (list styledecl)) 
+         (html : bool) (name : text) (attrs : list (text * text)) (kids : list node) 
+         (p : list anc) (idx : Z) (computed : cstyle),
+       style_of sd udc inl name attrs p idx = Ok computed ->
+       shown computed = false -> process sd udc inl (NElem html name attrs kids) p idx = Ok None.
+Proof. exact DomInline.process_hidden_element. Qed.
+Print Assumptions process_hidden_element.
+
+Theorem process_a_href :
+  forall (sd : styledata) (udc : bool) (inl : list (text * text) -> res (list styledecl)) 
+         (name : text) (attrs : list (text * text)) (kids : list node) (p : list anc) 
+         (idx : Z) (computed : cstyle),
+       style_of sd udc inl name attrs p idx = Ok computed ->
+       shown computed = true ->
+       forall (href : text) (cs : list rnode),
+       DomRel.kind_of name = DomRel.KA ->
+       find_attr attrs s_href = Some href ->
+       kids_of sd udc inl ({| a_name := name; a_attrs := attrs; a_idx := idx |} :: p) kids = Ok cs ->
+       process sd udc inl (NElem true name attrs kids) p idx =
+       Ok
+         (DomRel.post computed (fragment_of name (names [[97]] name) attrs)
+            (if existsb (fun c : rnode => negb (is_shallow_empty c)) cs
+             then Some (RN (ILink href cs) computed)
+             else None)).
+Proof. exact DomInline.process_a_href. Qed.
+Print Assumptions process_a_href.
+
+Theorem process_a_plain :
+  forall (sd : styledata) (udc : bool) (inl : list (text * text) -> res (list styledecl)) 
+         (name : text) (attrs : list (text * text)) (kids : list node) (p : list anc) 
+         (idx : Z) (computed : cstyle),
+       style_of sd udc inl name attrs p idx = Ok computed ->
+       shown computed = true ->
+       forall cs : list rnode,
+       DomRel.kind_of name = DomRel.KA ->
+       find_attr attrs s_href = None ->
+       kids_of sd udc inl ({| a_name := name; a_attrs := attrs; a_idx := idx |} :: p) kids = Ok cs ->
+       process sd udc inl (NElem true name attrs kids) p idx =
+       Ok
+         (DomRel.post computed (fragment_of name (names [[97]] name) attrs)
+            (Some (RN (IContainer cs) computed))).
+Proof. exact DomInline.process_a_plain. Qed.
+Print Assumptions process_a_plain.
+
+Theorem process_inline :
+  forall (sd : styledata) (udc : bool) (inl : list (text * text) -> res (list styledecl)) 
+         (name : text) (attrs : list (text * text)) (kids : list node) (p : list anc) 
+         (idx : Z) (computed : cstyle),
+       style_of sd udc inl name attrs p idx = Ok computed ->
+       shown computed = true ->
+       forall cs : list rnode,
+       kids_of sd udc inl ({| a_name := name; a_attrs := attrs; a_idx := idx |} :: p) kids = Ok cs ->
+       (DomRel.kind_of name = DomRel.KEm ->
+        process sd udc inl (NElem true name attrs kids) p idx =
+        Ok (DomRel.post computed (fragment_of name (names [[97]] name) attrs) (Some (RN (IEm cs) computed)))) /\
+       (DomRel.kind_of name = DomRel.KStrong ->
+        process sd udc inl (NElem true name attrs kids) p idx =
+        Ok
+          (DomRel.post computed (fragment_of name (names [[97]] name) attrs)
+             (Some (RN (IStrong cs) computed)))) /\
+       (DomRel.kind_of name = DomRel.KStrike ->
+        process sd udc inl (NElem true name attrs kids) p idx =
+        Ok
+          (DomRel.post computed (fragment_of name (names [[97]] name) attrs)
+             (Some (RN (IStrikeout cs) computed)))) /\
+       (DomRel.kind_of name = DomRel.KCode ->
+        process sd udc inl (NElem true name attrs kids) p idx =
+        Ok
+          (DomRel.post computed (fragment_of name (names [[97]] name) attrs) (Some (RN (ICode cs) computed)))) /\
+       (DomRel.kind_of name = DomRel.KSup ->
+        process sd udc inl (NElem true name attrs kids) p idx =
+        Ok (DomRel.post computed (fragment_of name (names [[97]] name) attrs) (Some (RN (ISup cs) computed)))) /\
+       (DomRel.kind_of name = DomRel.KSpan ->
+        process sd udc inl (NElem true name attrs kids) p idx =
+        Ok
+          (DomRel.post computed (fragment_of name (names [[97]] name) attrs)
+             match cs with
+             | [] => None
+             | _ :: _ => Some (RN (IContainer cs) computed)
+             end)) /\
+       (DomRel.kind_of name = DomRel.KOther ->
+        process sd udc inl (NElem true name attrs kids) p idx =
+        Ok
+          (DomRel.post computed (fragment_of name (names [[97]] name) attrs)
+             match cs with
+             | [] => None
+             | _ :: _ => Some (RN (IContainer cs) computed)
+             end)) /\
+       (DomRel.kind_of name = DomRel.KRoot ->
+        process sd udc inl (NElem true name attrs kids) p idx =
+        Ok
+          (DomRel.post computed (fragment_of name (names [[97]] name) attrs)
+             (Some (RN (IContainer cs) computed)))).
+Proof. exact DomInline.process_inline. Qed.
+Print Assumptions process_inline.
+
+Theorem process_leaf :
+  forall (sd : styledata) (udc : bool) (inl : list (text * text) -> res (list styledecl)) 
+         (name : text) (attrs : list (text * text)) (kids : list node) (p : list anc) 
+         (idx : Z) (computed : cstyle),
+       style_of sd udc inl name attrs p idx = Ok computed ->
+       shown computed = true ->
+       (DomRel.kind_of name = DomRel.KBr ->
+        process sd udc inl (NElem true name attrs kids) p idx =
+        Ok (DomRel.post computed (fragment_of name (names [[97]] name) attrs) (Some (RN IBreak computed)))) /\
+       (DomRel.kind_of name = DomRel.KSkip ->
+        process sd udc inl (NElem true name attrs kids) p idx =
+        Ok (DomRel.post computed (fragment_of name (names [[97]] name) attrs) None)) /\
+       (DomRel.kind_of name = DomRel.KImg ->
+        process sd udc inl (NElem true name attrs kids) p idx =
+        Ok
+          (DomRel.post computed (fragment_of name (names [[97]] name) attrs)
+             (let (o, o0) := img_attrs attrs None None in
+              match o with
+              | Some title =>
+                  match o0 with
+                  | Some src => Some (RN (IImg src title) computed)
+                  | None => None
+                  end
+              | None => None
+              end))).
+Proof. exact DomInline.process_leaf. Qed.
+Print Assumptions process_leaf.
+
+Theorem a_href_text_is_link :
+  forall (sd : styledata) (udc : bool) (inl : list (text * text) -> res (list styledecl)) 
+         (name : text) (attrs : list (text * text)) (kids : list node) (p : list anc) 
+         (idx : Z) (computed : cstyle) (href t : text),
+       style_of sd udc inl name attrs p idx = Ok computed ->
+       shown computed = true ->
+       cps name = [97] ->
+       find_attr attrs s_href = Some href ->
+       In (NText t) kids ->
+       all_ws t = false ->
+       forall r : option rnode,
+       process sd udc inl (NElem true name attrs kids) p idx = Ok r ->
+       exists cs : list rnode,
+         kids_of sd udc inl ({| a_name := name; a_attrs := attrs; a_idx := idx |} :: p) kids = Ok cs /\
+         r = DomRel.post computed (fragment_of name true attrs) (Some (RN (ILink href cs) computed)).
+Proof. exact DomInline.a_href_text_is_link. Qed.
+Print Assumptions a_href_text_is_link.
+
+Theorem process_links :
+  forall (sd : styledata) (udc : bool) (inl : list (text * text) -> res (list styledecl)) 
+         (n : node) (p : list anc) (idx : Z) (t : rnode),
+       table_free n = true ->
+       process sd udc inl n p idx = Ok (Some t) -> all_links t = dlinks sd udc inl n p idx.
+Proof. exact DomInline.process_links. Qed.
+Print Assumptions process_links.
+
+Theorem process_nothing_links :
+  forall (sd : styledata) (udc : bool) (inl : list (text * text) -> res (list styledecl)) 
+         (n : node) (p : list anc) (idx : Z),
+       table_free n = true -> process sd udc inl n p idx = Ok None -> dlinks sd udc inl n p idx = [].
+Proof. exact DomInline.process_nothing_links. Qed.
+Print Assumptions process_nothing_links.
+
+Theorem process_no_table :
+  forall (sd : styledata) (udc : bool) (inl : list (text * text) -> res (list styledecl)) 
+         (n : node) (p : list anc) (idx : Z) (x : rnode),
+       table_free n = true -> process sd udc inl n p idx = Ok (Some x) -> no_table x = true.
+Proof. exact DomInline.process_no_table. Qed.
+Print Assumptions process_no_table.
+
+Theorem dom_tree_links :
+  forall (sd : styledata) (udc : bool) (inl : list (text * text) -> res (list styledecl))
+         (doc : list node) (tree : rnode),
+       forallb table_free doc = true ->
+       dom_to_render_tree sd udc inl doc = Ok tree ->
+       all_links tree = dom_links sd udc inl doc /\ no_table tree = true.
+Proof. exact DomInline.dom_tree_links. Qed.
+Print Assumptions dom_tree_links.
+
+Theorem c08_tree_links :
+  forall (inline_styles : list (text * text) -> res (list styledecl))
+         (doc_rules : list node -> res (list ruleset)) (c : config) (doc : list node) 
+         (tree : rnode),
+       forallb table_free doc = true ->
+       to_render_tree inline_styles doc_rules c doc = Ok tree ->
+       all_links tree = doc_links inline_styles doc_rules c doc /\ no_table tree = true.
+Proof. exact DomInline.c08_tree_links. Qed.
+Print Assumptions c08_tree_links.
+
+Theorem c08_footnote_list :
+  forall (inline_styles : list (text * text) -> res (list styledecl))
+         (doc_rules : list node -> res (list ruleset)) (c : config) (doc : list node) 
+         (tree : rnode) (width : N) (s : subr),
+       forallb table_free doc = true ->
+       to_render_tree inline_styles doc_rules c doc = Ok tree ->
+       render_tree (c_deco c) (c_min_wrap c) (render_options c) width tree = Ok s ->
+       exists (st : rstate) (body : subr),
+         render_node (c_deco c) (c_min_wrap c) tree
+           {| stack := [sub_new width (render_options c)]; links := [] |} = Ok st /\
+         stack st = [body] /\
+         links st = doc_links inline_styles doc_rules c doc /\
+         match (if o_footnotes (render_options c) then doc_links inline_styles doc_rules c doc else []) with
+         | [] => s = body
+         | _ :: _ =>
+             exists b1 : subr,
+               start_block body = Ok b1 /\
+               s = fmt_links b1 (finalise_from 1 (doc_links inline_styles doc_rules c doc))
+         end.
+Proof. exact DomInline.c08_footnote_list. Qed.
+Print Assumptions c08_footnote_list.
+
